@@ -22,7 +22,7 @@ var propC16 = &pProp{
 		if tier == "thorough" {
 			return pParams{batches: 6, grammars: 400, inputs: 8, optSets: 3, enumMax: 400}
 		}
-		return pParams{grammars: 96, inputs: 4, optSets: 2, enumMax: 160}
+		return pParams{grammars: 224, inputs: 4, optSets: 2, enumMax: 160}
 	},
 	mkReqs: func(r *rng, gp *genParser, p pParams) []*parsersim.Request {
 		var reqs []*parsersim.Request
